@@ -42,6 +42,33 @@ def nav_commands():
     return sorted(names) or ["ZoomIn", "ZoomOut", "MoveNext", "MovePrevious"]
 
 
+_INTERNAL = {}
+
+
+def internal_attrs():
+    """every data-* attribute name that occurs in the library's source (read from the tree so that the workload follows the code base)"""
+    if "attrs" not in _INTERNAL:
+        names = set()
+        for f in sorted(os.listdir(os.path.join(core.REPO, "src"))):
+            if f.endswith(".rs"):
+                names |= set(re.findall(r'"(data-[A-Za-z0-9_-]+)"', open(os.path.join(core.REPO, "src", f), encoding="utf-8").read()))
+        _INTERNAL["attrs"] = sorted(names) or ["data-changed"]
+    return _INTERNAL["attrs"]
+
+
+def internal_names():
+    """upper-case identifiers the library uses for elements it creates itself (TEMP_NAME, ...) -- as intent names in the input"""
+    if "names" not in _INTERNAL:
+        names = set()
+        for f in ("speech.rs", "infer_intent.rs", "canonicalize.rs"):
+            try:
+                names |= set(re.findall(r'"([A-Z][A-Z_]{3,})"', open(os.path.join(core.REPO, "src", f), encoding="utf-8").read()))
+            except OSError:
+                pass
+        _INTERNAL["names"] = sorted(names) or ["TEMP_NAME"]
+    return _INTERNAL["names"]
+
+
 def pref_names():
     names = sorted(set(configs.prefs_yaml()) | set(configs.API_DEFAULTS))
     return names + ["", "NoSuchPref", "language", "LANGUAGE", "Speech", "ClearSpeak", "ClearSpeak_", "_", "é", "A" * 300, "Language ", "DecimalSeparators", "BlockSeparators", "LanguageAuto", "MathRate",
@@ -126,8 +153,15 @@ class Hostile:
         t = gen.Textbook(r, max_depth=r.choice([1, 2, 3])).expression()[0] if r.random() < 0.6 else gen_degen.Degenerate(r, max_depth=3, size_cap=15).expression()
         nodes = [n for n, _ in t.walk()]
         for n in r.sample(nodes, min(len(nodes), r.randint(1, 4))):
+            if r.random() < 0.35:
+                # MathCAT's own bookkeeping attributes (every data-* name that occurs in the library's source) with values it would never store:
+                # returned MathML that was edited and sent back
+                n.attrs[r.choice(internal_attrs())] = r.choice(["", "x", "true", "0", "-1", "3", "99999999999999999999", "added", "⠹⠹", "1.5", "a b"])
+                continue
             name, values = r.choice(ATTRS)
             n.attrs[name] = r.choice(values)
+            if name == "intent" and r.random() < 0.3:
+                n.attrs[name] = r.choice(internal_names()) + r.choice(["", "($a)", "($a,$b)", "(x)(y)"])
         return t.xml()
 
     def mutated(self):
